@@ -545,6 +545,9 @@ func (ex *Exec) evIndex(x *SIndex, env *Env) Val {
 		if it.S != k {
 			ex.specFail("index sort mismatch in %s", show(x))
 		}
+		if et, ok := ex.rawElemTy[base.T.String()]; ok {
+			return Val{T: Select(base.T, it), Ty: et}
+		}
 		return Val{T: Select(base.T, it), Ty: tyOfSort(v, base.Ty)}
 	}
 	ex.specFail("cannot index %s", show(x))
@@ -832,7 +835,9 @@ func (ex *Exec) evCall(x *SCall, env *Env) Val {
 		m := arg(0)
 		mt := m.Ty.Underlying().(*types.Map)
 		vs := sortOf(mt.Elem())
-		return Val{T: Select(ex.getHeap(st, mapValName(mt), ArrS(SInt, ArrS(SInt, vs))), m.T), Ty: rawArrTy(vs)}
+		rv := Select(ex.getHeap(st, mapValName(mt), ArrS(SInt, ArrS(SInt, vs))), m.T)
+		ex.rawElemTy[rv.String()] = mt.Elem()
+		return Val{T: rv, Ty: rawArrTy(vs)}
 	case "visited":
 		// visited set of the enclosing map-range loop (ordinal optional)
 		if env.li == nil {
